@@ -221,3 +221,16 @@ Proof.
   - destruct (is_attribute (lower e pr)); [eexists _, _, _; intros; reflexivity|].
     destruct (pe_valid_scheme e (lower e pr)); eexists _, _, _; intros; reflexivity.
 Qed.
+
+(* The theorems above are about the WHOLE escaped value.  A cut anywhere inside it (what truncating an evaluated
+   template to a maximum length did before fix "evaluated contact queries are not truncated") loses the closing
+   quote: for the value  a QUOTE OR id = 1 xxxx  the text  name = QUOTE a BACKSLASH QUOTE OR id = 1 xx  lexes to a
+   STRING holding a backslash, then OR, id, =, 1, xx — the rest of the value has become query text. *)
+Example truncation_breaks_quoting :
+  let p := fun c => ((32 <=? c) && (c <? 127))%N in
+  let v := [97; 34; 32; 79; 82; 32; 105; 100; 32; 61; 32; 49; 32; 120; 120; 120; 120]%N in
+  cql_lex (tpl1 ++ firstn 18 (quote_value p v))
+  = LexOk [(PROPERTY, [110; 97; 109; 101]%N); (COMPARATOR, [61%N]); (STRING, [34; 97; 92; 34]%N); (OR, [79; 82]%N);
+           (PROPERTY, [105; 100]%N); (COMPARATOR, [61%N]); (PROPERTY, [49%N]); (PROPERTY, [120; 120; 120]%N)]
+  /\ cql_lex (tpl1 ++ quote_value p v) = LexOk [(PROPERTY, [110; 97; 109; 101]%N); (COMPARATOR, [61%N]); (STRING, quote_value p v)].
+Proof. split; vm_compute; reflexivity. Qed.
